@@ -445,3 +445,68 @@ pub fn enum_list_alphabet(prog: &Program) -> Vec<Item> {
     out.push(Item::word("zz"));
     out
 }
+
+// ------------------------------------------------------------------ attribute corpus (C08)
+
+pub fn attr_corpus(thorough: bool) -> Vec<Program> {
+    let mut out = vec![];
+    let name_sets: Vec<Vec<&str>> = vec![vec!["a"], vec!["a", "b"], vec!["a", "b", "c::d"]];
+    let fwds: Vec<Fwd> = vec![Fwd::Absent, Fwd::All, Fwd::Only(vec!["doc".into(), "allow".into()]), Fwd::Only(vec![])];
+    for t in [Trait::FromDeriveInput, Trait::FromField, Trait::FromVariant, Trait::FromTypeParam, Trait::FromAttributes] {
+        for (ni, names) in name_sets.iter().enumerate() {
+            for (fi, fwd) in fwds.iter().enumerate() {
+                if !thorough && (ni + fi + t as usize) % 2 == 1 && !(ni == 1 && fi == 1) {
+                    continue;
+                }
+                let mut pool: Vec<Decl> = vec![Decl::Struct(StructDecl::new(t, vec![]))];
+                let child = child_struct(&mut pool, false);
+                if let Decl::Struct(c) = &mut pool[child] {
+                    c.from_none = true; // `n` is optional: absent -> the child's from_none value
+                }
+                let mut m = Field::new("m", Ty::U32);
+                m.multiple = true;
+                let fields = vec![Field::new("alpha", Ty::U32), Field::new("gamma", Ty::OptU32), m, Field::new("n", Ty::Struct(child))];
+                let mut s = StructDecl::new(t, fields);
+                s.attrs = names.iter().map(|x| x.to_string()).collect();
+                s.fwd = fwd.clone();
+                if *fwd != Fwd::Absent {
+                    s.magic = vec!["attrs".into()];
+                }
+                pool[0] = Decl::Struct(s);
+                out.push(Program { decls: pool, root: 0, family: format!("attrs {} names={:?} fwd={:?}", t.name(), names, fwd) });
+            }
+        }
+    }
+    out
+}
+
+pub fn attr_alphabet() -> Vec<Item> {
+    vec![
+        Item::nv("alpha", "5"),
+        Item::nv("alpha", "\"x\""),
+        Item::nv("gamma", "1"),
+        Item::nv("m", "1"),
+        Item::nv("m", "\"bad\""),
+        Item::list("n", vec![Item::nv("x", "1")]),
+        Item::list("n", vec![]),
+        Item::nv("zz", "1"),
+        Item::lit("\"lit\""),
+    ]
+}
+
+/// Attributes that must have no effect on parsing (raw source text).
+pub fn foreign_attrs() -> Vec<&'static str> {
+    vec![
+        "#[doc = \"x\"]",
+        "#[cfg(any())]",
+        "#[derive(Debug)]",
+        "#[allow(dead_code)]",
+        "#[weird(a b ;)]",
+        "#[other = 1 + 2]",
+        "#[a]",
+        "#[a()]",
+        "#[::a(alpha = 9)]",
+        "#[a::a(alpha = 9)]",
+        "#[doc(hidden)]",
+    ]
+}
